@@ -190,6 +190,7 @@ def check_layout(ctx, facts, rule):
         detail = 'packing divides the sub-second %s by %d; reading back gives %s' % (unit, k, {kk: ('seconds' if kk == 'secs' else 'fraction x %s' % v[1]) for kk, v in back.items()})
         ctx.ob(rule, 'fraction-resolution', good, site_, detail if good else detail + ' — the time component does not round-trip at the stated resolution')
         maxv = {'millis': 999, 'micros': 999999, 'nanos': 999999999}[unit]
+        ctx.c10_max_fraction = maxv // k
         ctx.ob(rule, 'fraction-fits-u8', maxv // k <= 255, site_, 'largest fraction %d/%d = %d %s 8 bits' % (maxv, k, maxv // k, 'fits' if maxv // k <= 255 else 'does NOT fit'))
     else:
         ctx.ob(rule, 'fraction-resolution', False, site_, 'the fraction of a second is not computed by one division of a sub-second reading / the time cannot be read back (%s)' % detail)
@@ -240,10 +241,20 @@ def reader_by_interpretation(facts, fs, layout):
         r = it.run_body(fs, [('ref', Cell(('str', 'input')))])
         return it.oracle_log, (r, list(it.trace))
     oks = []
+    bounds = {}
+    FL = {'Gt': 'Lt', 'Lt': 'Gt', 'Ge': 'Le', 'Le': 'Ge'}
     for log, r in absint.explore(one):
         if r and r[0] == 'panic':
             raise Unmodelled('from_str has a panicking path')
         v, tr = r
+        for x in tr:
+            if isinstance(x, tuple) and x[0] == 'bv-cmp' and x[1] in FL:
+                op_, l_, r_ = x[1], x[2], x[3]
+                if l_[0] == 'const' and r_[0] == 'field':
+                    op_, l_, r_ = FL[op_], r_, l_
+                if l_[0] == 'field' and r_[0] == 'const':
+                    # the largest value of the field that is NOT on the `field > c` / `field >= c` side
+                    bounds.setdefault(l_[1], set()).add(r_[1] if op_ in ('Gt', 'Le') else r_[1] - 1)
         if v[0] == 'adt' and v[1] == 'core::result::Result' and v[2] == 0:
             oks.append((v[3][0].v, tr))
     if not oks:
@@ -268,6 +279,7 @@ def reader_by_interpretation(facts, fs, layout):
         readers.add(tuple(sorted(by_piece.items())))
     if len(readers) != 1:
         raise Unmodelled('from_str routes its pieces differently on different paths')
+    reader_by_interpretation.bounds = bounds
     return dict(readers.pop()), splits
 
 
